@@ -81,6 +81,20 @@ def overlapping_boxes(rec):
     return False
 
 
+def has_hole(rec):
+    """more boundary pieces than regions (bookkeeping only, scipy labelling)"""
+    if rec.get("exc") or not rec.get("sets"):
+        return False
+    import scipy.ndimage as ndi
+    shape = rec["shape"]
+    R = np.array(rec["R"]).reshape(shape)
+    st = np.ones((3,) * len(shape))
+    B = np.zeros(int(np.prod(shape)), dtype=int)
+    for s_ in rec["sets"]:
+        B[np.array(s_, dtype=int) - 1] = 1
+    return ndi.label(B.reshape(shape), st)[1] > ndi.label(R, st)[1]
+
+
 def sorter_cases(ctx):
     rng = np.random.default_rng(ctx.seed * 104729 + 15)
     sets = H.sorter_point_sets(rng, ctx.pick(60, 600))
@@ -89,6 +103,10 @@ def sorter_cases(ctx):
         for optimal in ((False, True) if (k < 8 or k % 3 == 0) else (bool(k % 2),)):
             cases.append(dict(kind="sort", name=name, x=[float(v) for v in x], y=[float(v) for v in y],
                               optimal=optimal))
+        if k < 10 or k % 4 == 1:   # x, y are array_like: lists, tuples, pandas Series with their own labels
+            cont = ["list", "tuple", "series"][k % 3]
+            cases.append(dict(kind="sort", name=name, x=[float(v) for v in x], y=[float(v) for v in y],
+                              optimal=bool(k % 2), container=cont))
     return cases
 
 
@@ -130,15 +148,25 @@ def synthetic_records():
     b_b = [c for c in b if c not in (cell(3, 6, 9), cell(3, 7, 9))]  # row 4 and column 8 are on the grid border
     multi = dict(id=899997, kind="hdc", exc="", shape=[5, 9], R=R2, sets=[a_b, b_b], offgrid=0, ragged=False,
                  isarray=False, arrshape=[0, 0], resorted=[])
+    # one region with a hole: 7 x 7 grid without its centre; outer ring + the 8 cells around the hole, ONE set
+    R3 = [1] * 49
+    R3[cell(3, 3, 7) - 1] = 0
+    outer = [cell(i, j, 7) for i in range(7) for j in range(7) if i in (0, 6) or j in (0, 6)]
+    inner = [cell(i, j, 7) for i in range(2, 5) for j in range(2, 5) if (i, j) != (3, 3)]
+    both = sorted(outer + inner)
+    hole = dict(id=899995, kind="hdc", exc="", shape=[7, 7], R=R3, sets=[both], offgrid=0, ragged=False,
+                isarray=True, arrshape=[32, 2], resorted=list(both))
     srt = dict(id=899996, kind="sort", exc="", inp=[[0, 0], [1000000, 0], [1000000, 1000000], [0, 1000000],
                                                      [500000, 1500000], [0, 0]],
                out=[[0, 0], [0, 0], [1000000, 0], [1000000, 1000000], [500000, 1500000], [0, 1000000]],
                samelen=True, mutated=False)
-    return base, multi, srt
+    hole["_outer"], hole["_inner"] = outer, inner
+    return base, multi, srt, hole
 
 
 def self_test(ctx):
-    base, multi, srt = synthetic_records()
+    base, multi, srt, hole = synthetic_records()
+    outer, inner = hole.pop("_outer"), hole.pop("_inner")
     variants = []
 
     def var(clause, src, **changes):
@@ -151,7 +179,9 @@ def self_test(ctx):
     var("CoordsAreCellCentres", base, offgrid=1)
     var("CoordsAreBoundary", base, sets=[s0[:-3]], arrshape=[len(s0) - 3, 2], resorted=base["resorted"][:-3])
     var("EachOnce", base, sets=[s0 + s0[:1]])
-    var("OneSetPerBoundaryPiece", base, sets=[s0[: len(s0) // 2], s0[len(s0) // 2:]], isarray=False)
+    var("OneSetPerRegion", base, sets=[s0[: len(s0) // 2], s0[len(s0) // 2:]], isarray=False)
+    # the behaviour before fix 87ce4d1: outer and inner boundary of ONE region as two sets
+    var("OneSetPerRegion", hole, sets=[outer, inner], isarray=False, arrshape=[0, 0], resorted=[])
     var("SingleIs2DArray", base, isarray=False)
     var("SingleIs2DArray", base, arrshape=[2, len(s0)])
     var("OrderIsLineSorter", base, sets=[s0[1:] + s0[:1]] if s0[1:] + s0[:1] != base["resorted"] else [s0[::-1]])
@@ -164,7 +194,7 @@ def self_test(ctx):
     var("IsPermutation", srt, out=srt["out"][:-1] + srt["out"][:1])
     var("SorterOutputShape", srt, samelen=False)
     var("InputNotMutated", srt, mutated=True)
-    good = [base, multi, srt]
+    good = [base, multi, srt, hole]
     failing = ctx.validate("Trace_C15", "Trace_C15.cfg", good + [r for _, r in variants], xss=XSS)
     bad = {r["id"]: failing[r["id"]] for r in good if r["id"] in failing}
     if bad:
@@ -183,10 +213,11 @@ def run(ctx):
         "classes + 1 default-deltas contour; thorough: every fit/cut class, every 4th small class + big grids), several classes designed to cut "
         "the region into pieces (coarse grid + narrow conditionals) or to be anisotropic (cell-size ratio 3, 10), "
         "10 / 60 bi-modal models (U-shaped beta conditional moving with the given: tilted parallel bands whose bounding "
-        "boxes overlap, 2-D and 3-D), the cheap contours a second time in reverse order; "
+        "boxes overlap, 2-D and 3-D), 8 / 48 single regions with a hole (direction variables with mean direction north on "
+        "[0, 2 pi), U-shaped beta variables; frames in 2-D, shells in 3-D), the cheap contours a second time in reverse order; "
         "sorter: regular circles, irregularly spaced ellipses, clusters, boundary cells of an ellipse on stretched "
         "grids, clouds, lattice sets with tied distances, the TLC counter-example, each with search_for_optimal_start "
-        "False/True.  distinct = distinct (model, alpha, limits, deltas) resp. distinct point set+option; non-trivial "
+        "False/True, and as list / tuple / pandas Series with shifted labels.  distinct = distinct (model, alpha, limits, deltas) resp. distinct point set+option; non-trivial "
         "= at least 4 enclosed cells and 4 returned points resp. at least 4 distinct points")
     ctx.trusted = [
         "TLC 1.8 evaluating spec/HDCOps.tla (BoundaryFast/ComponentsFast are model-checked equal to the definitions "
@@ -224,12 +255,15 @@ def run(ctx):
     # bi-modal conditionals (U-shaped beta moving with the given): tilted parallel bands whose
     # bounding boxes overlap
     cases += H.band_cases(np.random.default_rng(ctx.seed * 17 + 3), ctx.pick(10, 60))
+    # single regions with a hole (frame / shell): one region = one coordinate set
+    cases += H.hole_cases(np.random.default_rng(ctx.seed * 19 + 4), ctx.pick(8, 48))
     # V
     kept = judge_contours(ctx, vc, cases, "contours")
     again = [c for c, r, i in reversed(kept) if not r["exc"] and i["n"] <= 4000][: ctx.pick(25, 200)]
     judge_contours(ctx, vc, again, "second evaluation in reverse order", base_id=250000,
                    key_suffix=" second-evaluation")
     ctx.notes["second_evaluations"] = len(again)
+    ctx.notes["contours_whose_region_has_a_hole"] = sum(1 for _, r, _ in kept if has_hole(r))
     ctx.notes["contours_with_overlapping_piece_boxes"] = sum(1 for _, r, _ in kept if overlapping_boxes(r))
     scases = sorter_cases(ctx)
     srecs = judge_sorter(ctx, vc, scases, "line sorter")
